@@ -422,6 +422,24 @@ def run_item(ctx, item):
             sc = S.Score(parts, id="it")
             check_iteration(ctx, sc, "Score")
             ctx.case(["iter-score", item[1], n], n >= 2, cls="iteration")
+            # the same after the list of parts was edited (item assignment) and for the score that unfolding a Score returns:
+            # len, indexing and iteration keep describing one list of parts
+            if n >= 2 and rng.random() < 0.5:
+                extra_p, _ = gen_score.make_part(rng, "PX", profile="plain", n_measures=1)
+                sc[rng.randrange(n)] = extra_p
+                check_iteration(ctx, sc, "Score after item assignment")
+                ctx.case(["iter-score-edited", item[1], n], True, cls="iteration")
+            ms_ = [m for m in parts[0].iter_all(S.Measure)]
+            if ms_:
+                parts[0].add(S.Repeat(), ms_[0].start.t, ms_[0].end.t)
+                sc2 = S.Score(parts, id="it2")
+                ok_, un = ctx.try_call(S.unfold_part_maximal, sc2)
+                if ok_ and isinstance(un, S.Score):
+                    check_iteration(ctx, un, "Score returned by unfold_part_maximal")
+                    ctx.check()
+                    if sum(len(p_.notes) for p_ in un) != sum(len(un[i_].notes) for i_ in range(len(un))):
+                        ctx.violation("iteration-disagrees-with-index", "unfolded Score: notes seen by iteration and by indexing differ", {"container": "Score"})
+                    ctx.case(["iter-score-unfolded", item[1], n], True, cls="iteration")
         from partitura.performance import PerformedPart, Performance
         pps = [PerformedPart([{"id": f"n{j}", "midi_pitch": 60 + j, "note_on": j, "note_off": j + 1, "velocity": 64}], id=f"pp{i}") for i in range(n or 1)
                for j in range(1)]
